@@ -157,6 +157,10 @@ func verifyFunc(w *World, key string) *FuncResult {
 			post["result"] = results[0]
 		}
 		g.applyGhostSets(fc, exit, g.entry, post, pkgPath)
+		if fc.SafetyOnly {
+			g.trusted["postconditions and frame of "+shortKey(key)+" (safety_only: only its own panics, callee preconditions and at-call assertions are proved against the body)"] = true
+			return
+		}
 		for i, c := range fc.Ensures {
 			env := &Env{g: g, st: exit, old: g.entry, vars: post, pkgPath: pkgPath, fr: fr, inBody: true}
 			t := env.evalBool(c.E)
